@@ -295,7 +295,9 @@ def evaluate__treat_expression(self: XPathToken, context: ta.ContextType = None)
     occurs = self[1].occurrence
     position = None
     castable_expr: xlist[ta.ItemType] = xlist()
-    if self[1].symbol == 'empty-sequence':
+    if isinstance(context, XPathSchemaContext):
+        return xlist(self[0].select(context))  # static analysis: no dynamic type error
+    elif self[1].symbol == 'empty-sequence':
         for _ in self[0].select(context):
             raise self.error('XPDY0050')
     elif self[1].label in ('kind test', 'sequence type', 'function test'):
